@@ -82,6 +82,8 @@ pub struct Analysis {
   /// Tasks all of whose recorded dependencies were checked and found consistent in this segment (pie then holds them
   /// as consistent for the rest of the session, also when the task that required them was aborted later).
   pub pass_complete: BTreeSet<Tid>,
+  /// Tasks whose cached output a bottom-up build handed out (pie marks them consistent for the session).
+  pub bu_reused: BTreeSet<Tid>,
 }
 
 #[derive(Clone, Debug)]
@@ -506,7 +508,7 @@ impl<'a> Runner<'a> {
     }
     let analysis = self.analyse(step, &kind, &slice, &res, is_repeat, fault_free, last, carry);
     // What pie's session now holds as consistent.
-    for t in analysis.validated_ok.iter().chain(analysis.pass_complete.iter()) { carry.validated.insert(*t); }
+    for t in analysis.validated_ok.iter().chain(analysis.pass_complete.iter()).chain(analysis.bu_reused.iter()) { carry.validated.insert(*t); }
     for t in analysis.executed.iter() {
       if self.ledger[*t].as_ref().map(|e| e.completed).unwrap_or(false) {
         carry.validated.insert(*t);
@@ -1455,7 +1457,7 @@ impl<'a> Runner<'a> {
     self.check_tracker(step, slice, aborted, last);
     let incons_open: BTreeSet<Tid> = (0..ntasks).filter(|t| pass[*t].started && pass[*t].ended_incons && !executed.contains(t)).collect();
     let pass_complete: BTreeSet<Tid> = (0..ntasks).filter(|t| { let p = &pass[*t]; let nd = self.ledger[*t].as_ref().map(|e| e.deps.len()).unwrap_or(0); p.started && !p.ended_incons && p.checked.len() >= nd && !executed.contains(t) }).collect();
-    Analysis { pass_complete, executed, validated_ok, open_op: op_stack.last().map(|(t, op, target, _)| (*t, *op, *target)), exec_stack, pending: pending.keys().copied().collect(), incons_open }
+    Analysis { bu_reused, pass_complete, executed, validated_ok, open_op: op_stack.last().map(|(t, op, target, _)| (*t, *op, *target)), exec_stack, pending: pending.keys().copied().collect(), incons_open }
   }
 
   fn check_tracker(&mut self, step: usize, slice: &[Ev], aborted: bool, last: bool) {
